@@ -102,15 +102,16 @@ def _quote_match(match):
 
 # NOTE: here, unsafe must be a container of bytes
 def unquote(string, only_printable=False, unsafe=None, normalize_space=False):
+    # NOTE: without any "%" there is nothing to unquote, but what follows
+    # must still apply, else unquoting twice would not equal unquoting once
     if "%" not in string:
-        if normalize_space:
-            return string.replace(" ", "%20")
-
-        return string
-
-    q = "".join(
-        _generate_unquoted_parts(string, only_printable=only_printable, unsafe=unsafe)
-    )
+        q = string
+    else:
+        q = "".join(
+            _generate_unquoted_parts(
+                string, only_printable=only_printable, unsafe=unsafe
+            )
+        )
 
     # NOTE: C1 control characters and exotic whitespace (that stripping the
     # url would eat) are encoded on several bytes and can therefore only be
